@@ -66,6 +66,41 @@ def is_sanitised(arg, f):
     return False
 
 
+def _is_raw_float(arg, f):
+    """Is the formatted argument the float itself (or str()/repr()/float() of it), i.e. text that may
+    already contain an exponent?  A piece obtained by partition()/split() on the exponent marker, or a
+    Decimal rendered with a fixed-point format, is not."""
+    params = flow.param_names(f)
+
+    def raw(e, depth=0):
+        if isinstance(e, ast.Name):
+            binds = [a.value for a in walk_no_nested(f) if isinstance(a, ast.Assign) and e.id in [x for t in a.targets for x in flow.target_names(t)]]
+            if e.id in params and not binds:
+                return True
+            if depth > 4:
+                return True
+            vals = []
+            for a in walk_no_nested(f):
+                if isinstance(a, ast.Assign):
+                    for t in a.targets:
+                        if isinstance(t, ast.Name) and t.id == e.id:
+                            vals.append(a.value)
+                        elif isinstance(t, ast.Tuple) and e.id in flow.target_names(t):
+                            vals.append(a.value)
+            return any(raw(v, depth + 1) for v in vals) or (e.id in params and not vals)
+        if isinstance(e, ast.Call):
+            fn = e.func
+            if isinstance(fn, ast.Name) and fn.id in ('float', 'str', 'repr', 'abs'):
+                return any(raw(a, depth + 1) for a in e.args)
+            if isinstance(fn, ast.Attribute) and fn.attr in ('partition', 'split', 'rpartition', 'format', 'normalize', 'scaleb'):
+                return False
+            return False
+        if isinstance(e, ast.BinOp):
+            return raw(e.left, depth + 1) or raw(e.right, depth + 1)
+        return False
+    return raw(arg)
+
+
 def check(ctx):
     model = ctx.model
     m = model.mod(F)
@@ -170,7 +205,7 @@ def check(ctx):
         if isinstance(n, ast.Call) and isinstance(n.func, ast.Attribute) and n.func.attr == 'format' and isinstance(n.func.value, ast.Constant) \
                 and isinstance(n.func.value.value, str):
             t = n.func.value.value
-            bad = '{}E' in t or '{}e' in t or '{0}E' in t
+            bad = ('{}E' in t or '{}e' in t or '{0}E' in t) and n.args and _is_raw_float(n.args[0], f)
             ctx.instance('C20.R3', '%s template %r' % (Model.qual(f), t), 'ok' if not bad else 'VIOLATION', node=n, file=F)
             if bad:
                 ctx.violation('C20.R3', F, n, Model.qual(f),
